@@ -34,10 +34,14 @@ type params struct {
 	Writers  int  // >1: ops are dealt round-robin to writer threads
 	FailCode bool // broker may answer chunks with a failure code (choice)
 	P        int  // schedule deviation budget
+	Prior     bool // another upstream with a 50 ms close timeout and a 300 ms ack timeout was opened and closed on the connection before
 	CloseRace bool // Close is called while the writer threads are still writing
 }
 
 func (p params) name() string {
+	if p.Prior {
+		return fmt.Sprintf("%s/q%d/u%v/pre%v/%s/w%d/fc%v/P%d/prior-tuned-stream", p.Policy, p.QoS, p.Unrel, p.Predecl, strings.Join(p.Ops, ","), p.Writers, p.FailCode, p.P)
+	}
 	if p.CloseRace {
 		return fmt.Sprintf("%s/q%d/u%v/pre%v/%s/w%d/fc%v/P%d/closerace", p.Policy, p.QoS, p.Unrel, p.Predecl, strings.Join(p.Ops, ","), p.Writers, p.FailCode, p.P)
 	}
@@ -138,6 +142,10 @@ func scenarios(tier string) []vlib.Scenario {
 	}
 	for _, pol := range []string{"none", "immediate"} {
 		add(params{Policy: pol, QoS: message.QoSReliable, Ops: []string{"wA1", "wB1", "F", "wA2"}, Writers: 2})
+	}
+	// the options of an earlier stream of the process must not change this one (defaults are shared through pointers)
+	for _, pol := range []string{"none", "immediate"} {
+		add(params{Policy: pol, QoS: message.QoSReliable, Ops: []string{"wA1", "wB1"}, Writers: 1, Prior: true})
 	}
 	if propID != "C20" {
 		// Close racing with writers: a write either fails or its point is delivered before the close request
@@ -430,6 +438,12 @@ func (w *world) main() {
 		ida := idA
 		opts = append(opts, iscp.WithUpstreamDataIDs([]*message.DataID{&ida}))
 	}
+	if w.p.Prior {
+		pu, err := conn.OpenUpstream(ctx, "prior", iscp.WithUpstreamCloseTimeout(50*time.Millisecond), iscp.WithUpstreamAckTimeout(300*time.Millisecond), iscp.WithUpstreamFlushPolicyNone())
+		if err == nil {
+			pu.Close(ctx)
+		}
+	}
 	up, err := conn.OpenUpstream(ctx, "sess", opts...)
 	if err != nil {
 		w.connErr = err
@@ -517,11 +531,15 @@ func (w *world) oracleC01(v *vlib.Verdict) {
 		v.Outcome = "close-error"
 		return
 	}
-	if len(w.b.Ups) != 1 {
+	wantUps := 1
+	if w.p.Prior {
+		wantUps = 2
+	}
+	if len(w.b.Ups) != wantUps {
 		v.Fail("C01.setup", "streams", "broker saw %d upstreams", len(w.b.Ups))
 		return
 	}
-	u := w.b.Ups[0]
+	u := w.b.Ups[wantUps-1]
 	// 1. multiset
 	var want []string
 	// order is owed per data id among writes that are ordered themselves: those of one writer thread
